@@ -35,7 +35,7 @@ type abortScenario struct {
 }
 
 var abortScenarios = []abortScenario{
-	{name: "full compaction in flight x SetCompactionsEnabled(false)", bound: [2]int{1, 2}},
+	{name: "full compaction in flight x SetCompactionsEnabled(false)", bound: [2]int{2, 3}}, // two deviations: into the compaction, and out of it mid-way
 	{name: "full compaction in flight x SetCompactionsEnabled(false) x reader", reader: true, bound: [2]int{1, 2}},
 }
 
